@@ -1144,6 +1144,20 @@ func (x *Exec) nameValue(v Value, hint string) Value {
 	return v
 }
 
+// onlyNewWrites: the leaf was written only at objects the function allocated
+// itself, so what it holds for previously existing objects is unchanged.
+func onlyNewWrites(ws *WriteSet) bool {
+	if ws.Whole {
+		return false
+	}
+	for _, b := range ws.Bases {
+		if !ws.New[b] {
+			return false
+		}
+	}
+	return true
+}
+
 var freshNameRe = regexp.MustCompile(`!([0-9]+)`)
 var nameTokRe = regexp.MustCompile(`[A-Za-z_$][A-Za-z0-9_.$#@\[\]-]*(![0-9]+)?`)
 
@@ -1201,8 +1215,8 @@ func (x *Exec) loopInvariant(term string, mark int, stEntry *State, disc map[str
 			// version: accept initial versions of leaves the body does not write
 			if strings.HasPrefix(tok, "L.") {
 				found := false
-				for k := range disc {
-					if strings.HasPrefix(tok, "L."+sanitize(k)+".e") {
+				for k, ws := range disc {
+					if strings.HasPrefix(tok, "L."+sanitize(k)+".e") && !onlyNewWrites(ws) {
 						found = true
 					}
 				}
@@ -1213,7 +1227,7 @@ func (x *Exec) loopInvariant(term string, mark int, stEntry *State, disc map[str
 			}
 			return "", false
 		}
-		if _, written := disc[key]; written {
+		if ws, written := disc[key]; written && !onlyNewWrites(ws) {
 			return "", false
 		}
 	}
